@@ -103,7 +103,9 @@ fn val_json(v: &Val) -> J {
     match v {
         Val::Nothing => json!("nothing"),
         Val::Str(s) => json!({"string": s}),
-        Val::Metric { obs, unit, dims } => json!({"metric": format!("{obs:?}"), "unit": unit, "dims": dims}),
+        Val::Metric { obs, unit, dims } => {
+            json!({"metric": format!("{obs:?}"), "unit": unit, "dims": dims})
+        }
         Val::Error(e) => json!({"error": e}),
     }
 }
@@ -250,7 +252,11 @@ impl Shard {
             .iter()
             .filter(|e| !matches!(e.val, EVal::Absent | EVal::Ignored))
             .collect();
-        let calls: Vec<&Exp> = exp.items.iter().filter(|e| e.val != EVal::Ignored).collect();
+        let calls: Vec<&Exp> = exp
+            .items
+            .iter()
+            .filter(|e| e.val != EVal::Ignored)
+            .collect();
         if calls.len() == rec.items.len() {
             // one `value()` call per non-ignored field: compare position by position, so that a
             // wrong name cannot shift the alignment of what follows
@@ -338,7 +344,12 @@ impl Shard {
         match name_match(e, &a.name) {
             NameMatch::No => {
                 let key = Self::name_key(e, &a.name);
-                let (path, want, got, class) = (e.path.clone(), e.name.clone(), a.name.clone(), e.leaf.clone());
+                let (path, want, got, class) = (
+                    e.path.clone(),
+                    e.name.clone(),
+                    a.name.clone(),
+                    e.leaf.clone(),
+                );
                 self.violation(key, || {
                     (
                         format!("{path}: documented name {want:?}, emitted {got:?}"),
@@ -358,7 +369,8 @@ impl Shard {
         }
         if a.name != e.bare {
             self.names.insert(fnv(&a.name));
-            let deep = e.path.contains("prefix=") && (e.path.matches('>').count() >= 2 || e.family == "enum-tag");
+            let deep = e.path.contains("prefix=")
+                && (e.path.matches('>').count() >= 2 || e.family == "enum-tag");
             if self.samples.len() < 4 && deep && (seed + idx as u64) % 11 == 3 {
                 self.samples.push(json!({
                     "configuration": e.path, "class": e.class, "expected_name": e.name,
@@ -372,9 +384,20 @@ impl Shard {
 
     /// The number of `value()` calls differs from the number of non-ignored fields: align the
     /// emitted (non-empty) items with the expected ones by name, with a bounded look-ahead.
-    fn resync(&mut self, root: &str, seed: u64, exp: &crate::model::Expectation, expv: &[&Exp], rec: &Recording) {
+    fn resync(
+        &mut self,
+        root: &str,
+        seed: u64,
+        exp: &crate::model::Expectation,
+        expv: &[&Exp],
+        rec: &Recording,
+    ) {
         let mut ghosts: HashMap<&str, &Exp> = HashMap::new();
-        for e in exp.items.iter().filter(|e| matches!(e.val, EVal::Absent | EVal::Ignored)) {
+        for e in exp
+            .items
+            .iter()
+            .filter(|e| matches!(e.val, EVal::Absent | EVal::Ignored))
+        {
             ghosts.insert(e.name.as_str(), e);
             for (a, _) in &e.alts {
                 ghosts.insert(a.as_str(), e);
@@ -401,10 +424,16 @@ impl Shard {
                 j += 1;
                 continue;
             }
-            let later_expected = expv[i + 1..expv.len().min(i + 1 + W)].iter().any(|x| matches(x, &a.name));
+            let later_expected = expv[i + 1..expv.len().min(i + 1 + W)]
+                .iter()
+                .any(|x| matches(x, &a.name));
             if !later_expected {
                 if let Some(g) = ghosts.get(a.name.as_str()) {
-                    let key = if g.val == EVal::Absent { "option-none-emitted" } else { "ignored-field-emitted" };
+                    let key = if g.val == EVal::Absent {
+                        "option-none-emitted"
+                    } else {
+                        "ignored-field-emitted"
+                    };
                     let (path, name, av) = (g.path.clone(), a.name.clone(), val_json(&a.val));
                     self.violation(key.to_string(), || {
                         (
@@ -416,7 +445,9 @@ impl Shard {
                     continue;
                 }
             }
-            let later_actual = act[j + 1..act.len().min(j + 1 + W)].iter().any(|y| matches(e, &y.name));
+            let later_actual = act[j + 1..act.len().min(j + 1 + W)]
+                .iter()
+                .any(|y| matches(e, &y.name));
             if later_expected && !later_actual {
                 let (path, name) = (e.path.clone(), e.name.clone());
                 self.violation(format!("missing-item:{}", e.leaf), || {
@@ -430,7 +461,11 @@ impl Shard {
             }
             if later_actual && !later_expected {
                 let dup = seen.contains_key(a.name.as_str());
-                let key = if dup { "duplicate-item" } else { "unexpected-item" };
+                let key = if dup {
+                    "duplicate-item"
+                } else {
+                    "unexpected-item"
+                };
                 let (name, av, near) = (a.name.clone(), val_json(&a.val), e.path.clone());
                 self.violation(key.to_string(), || {
                     (
@@ -461,7 +496,11 @@ impl Shard {
         while j < act.len() {
             let a = act[j];
             let key = if let Some(g) = ghosts.get(a.name.as_str()) {
-                if g.val == EVal::Absent { "option-none-emitted" } else { "ignored-field-emitted" }
+                if g.val == EVal::Absent {
+                    "option-none-emitted"
+                } else {
+                    "ignored-field-emitted"
+                }
             } else if seen.contains_key(a.name.as_str()) {
                 "duplicate-item"
             } else {
@@ -478,7 +517,13 @@ impl Shard {
         }
     }
 
-    fn concat_check(&mut self, got: Cow<'static, str>, want: String, const_expected: bool, shape: &str) {
+    fn concat_check(
+        &mut self,
+        got: Cow<'static, str>,
+        want: String,
+        const_expected: bool,
+        shape: &str,
+    ) {
         let borrowed = matches!(got, Cow::Borrowed(_));
         if borrowed {
             self.concat_borrowed += 1;
@@ -493,7 +538,10 @@ impl Shard {
             let g = got.to_string();
             self.violation(format!("concat-boundary:{len}"), || {
                 (
-                    format!("const_str_value::<{shape}> of total length {len}: got {g:?} (len {})", g.len()),
+                    format!(
+                        "const_str_value::<{shape}> of total length {len}: got {g:?} (len {})",
+                        g.len()
+                    ),
                     json!({"shape": shape, "expected": want, "actual": g, "borrowed": borrowed}),
                 )
             });
@@ -512,7 +560,12 @@ impl Shard {
         );
     }
 
-    pub fn concat3<S: MaybeConstStr, T: MaybeConstStr, U: MaybeConstStr>(&mut self, a: usize, b: usize, c: usize) {
+    pub fn concat3<S: MaybeConstStr, T: MaybeConstStr, U: MaybeConstStr>(
+        &mut self,
+        a: usize,
+        b: usize,
+        c: usize,
+    ) {
         self.concat_triples += 1;
         let want = format!("{}{}{}", &FILL_A[..a], &FILL_B[..b], &FILL_C[..c]);
         self.concat_check(
